@@ -8,7 +8,7 @@ import threading
 
 import numpy as np
 
-WRITERS = ["sweep", "nsga2", "nsga2_threads", "epsmoea", "omopso", "smpso", "bulk_sync_all"]
+WRITERS = ["sweep", "nsga2", "nsga2_threads", "epsmoea", "omopso", "smpso", "bulk_sync_all", "sweep_contended"]
 N_PARAMS = 2
 
 
@@ -67,6 +67,44 @@ def run_writer(kind, path, retlog, seed, on_event=None, marker=None):
         if kind == "sweep":
             from artap.algorithm_sweep import SweepAlgorithm
             from artap.operators import CustomGenerator
+            g = CustomGenerator(p.parameters)
+            g.init([[-0.9 + 0.3 * i, 0.8 - 0.25 * i] for i in range(6)])
+            a = SweepAlgorithm(p, generator=g)
+            a.run()
+        elif kind == "sweep_contended":
+            # the sweep again, but another connection holds the write lock for a while in the middle (a viewer, a second session),
+            # the busy time-out is short and the problem's (unrelated) time_out option is tiny: a synchronisation that returns has
+            # written its row, however long it had to wait
+            from artap.algorithm_sweep import SweepAlgorithm
+            from artap.operators import CustomGenerator
+            import time as _t
+            proxy.timeout = 0.03
+            try:
+                p.options["time_out"] = 0.001
+            except Exception:
+                pass
+            calls_ = [0]
+            started_ = [False]
+
+            def holder():
+                cn = sqlproxy.REAL_CONNECT(path, isolation_level=None, timeout=5.0)
+                try:
+                    cn.execute("BEGIN EXCLUSIVE")
+                    _t.sleep(0.35)
+                    cn.execute("COMMIT")
+                finally:
+                    cn.close()
+            real_eval = p.evaluate
+
+            def evaluate_(individual):
+                calls_[0] += 1
+                if calls_[0] == 3 and not started_[0]:
+                    started_[0] = True
+                    th_ = threading.Thread(target=holder, daemon=True)
+                    th_.start()
+                    _t.sleep(0.05)          # let the holder take the lock before this design is synchronised
+                return real_eval(individual)
+            p.evaluate = evaluate_
             g = CustomGenerator(p.parameters)
             g.init([[-0.9 + 0.3 * i, 0.8 - 0.25 * i] for i in range(6)])
             a = SweepAlgorithm(p, generator=g)
